@@ -26,6 +26,12 @@ func (ex *Exec) guardCheckSlow(st *State, fr *Frame, p PtrVal, write bool) {
 			continue
 		}
 		what := g.name
+		if g.mu == "readonly" {
+			if write {
+				ex.guardViolation(st, fr, what, "written although it belongs to an object shared read-only with the program")
+			}
+			return
+		}
 		if g.mu == "atomic" {
 			ex.guardViolation(st, fr, what, "atomic-only field accessed with a plain "+rw(write))
 			return
